@@ -767,6 +767,37 @@ Proof.
 Qed.
 Print Assumptions rfc_header_eq_model.
 
+(* figure 2 with the message type as one 14-bit field *)
+Lemma type14_check_all :
+  MsgType.forall_bits 12 (fun m => MsgType.forall_bits 2 (fun c => rfc_type14 m c =? EncodeMsg.msg_type_of m c)) = true.
+Proof. vm_compute. reflexivity. Qed.
+Lemma type14_bound_all :
+  MsgType.forall_bits 12 (fun m => MsgType.forall_bits 2 (fun c => rfc_type14 m c <? 16384)) = true.
+Proof. vm_compute. reflexivity. Qed.
+Lemma rfc_type14_eq m c : m < 4096 -> c < 4 -> rfc_type14 m c = EncodeMsg.msg_type_of m c /\ rfc_type14 m c < 16384.
+Proof.
+  intros Hm Hc. split.
+  - pose proof (MsgType.forall_bits_spec 12 _ type14_check_all m Hm) as H1. cbv beta in H1.
+    pose proof (MsgType.forall_bits_spec 2 _ H1 c Hc) as H2. apply N.eqb_eq. exact H2.
+  - pose proof (MsgType.forall_bits_spec 12 _ type14_bound_all m Hm) as H1. cbv beta in H1.
+    pose proof (MsgType.forall_bits_spec 2 _ H1 c Hc) as H2. apply N.ltb_lt. exact H2.
+Qed.
+Theorem rfc_header14_eq_model method class mlen txid :
+  method < 4096 -> class < 4 -> mlen < 65536 -> length txid = 12%nat -> bytes_ok txid = true ->
+  rfc_bytes (rfc_header14 method class mlen txid) = EncodeInto.header (EncodeMsg.msg_type_of method class) mlen txid.
+Proof.
+  intros Hm Hc Hl Htl Htok. unfold rfc_header14, EncodeInto.header.
+  destruct (rfc_type14_eq method class Hm Hc) as (E & B). rewrite E in *. clear E.
+  rewrite rfc_bytes_merge by (change (2 ^ N.of_nat 14) with 16384; exact B).
+  rewrite (rfc_bytes_cons _ 2), (rfc_bytes_cons 16 2), (rfc_bytes_cons 32 4), (rfc_bytes_cons 96 12) by reflexivity.
+  change (2 ^ N.of_nat 14) with 16384. rewrite !be2_be16 by lia.
+  change (av_be_n 4 magic_cookie) with EncodeInto.cookie_bytes.
+  rewrite (be_octets 12) by assumption. rbnil.
+  replace (0 * 16384 + EncodeMsg.msg_type_of method class) with (EncodeMsg.msg_type_of method class) by lia.
+  reflexivity.
+Qed.
+Print Assumptions rfc_header14_eq_model.
+
 (* ---- the message: header, then the attribute TLVs; this is the buffer prefix `encode_into` returns (C14) ---- *)
 Lemma rfc_message_body_eq l : forallb tlv_ok l = true -> forallb (fun a => bytes_ok (snd a)) l = true ->
   rfc_message_body l = enc_tlvs l.
